@@ -492,7 +492,7 @@ package server
 // (userOf / passOf of the key) -- every other key, user and password is untouched
 //@ pure cleared(u *UserManager, ns string, name string, p string) bool = exists(key string, has(u.userNamespaces, key) && u.userNamespaces[key] == ns && userOf(key) == name && passOf(key) == p)
 //@ func (*UserManager).ClearNamespaceUsers
-//@   requires u != nil && u.users != nil && u.userNamespaces != nil
+//@   requires u != nil && u.users != nil && u.userNamespaces != nil && forall(name string, has(u.users, name) ==> allocated(u.users[name]))
 //@   assigns mapof(u.users), mapof(u.userNamespaces)
 //@   may-panic when true
 //@   loop 0 invariant case keys: forall(key string, (has(u.userNamespaces, key) <==> old(has(u.userNamespaces, key)) && !(visited(key) && old(u.userNamespaces[key]) == namespace)) && (has(u.userNamespaces, key) ==> u.userNamespaces[key] == old(u.userNamespaces[key])))
@@ -500,9 +500,11 @@ package server
 //@   loop 0 invariant case pwdsOld:     forall(name string, forall(p string, has(u.users, name) && mem(u.users[name], p) ==> old(has(u.users, name) && mem(u.users[name], p))))
 //@   loop 0 invariant case pwdsRemoved: forall(key string, visited(key) && old(has(u.userNamespaces, key)) && old(u.userNamespaces[key]) == namespace ==> !(has(u.users, userOf(key)) && mem(u.users[userOf(key)], passOf(key))))
 //@   loop 0 invariant case seen: forall(key string, visited(key) ==> old(has(u.userNamespaces, key)))
+//@   loop 0 invariant case alloc: forall(name string, has(u.users, name) ==> allocated(u.users[name]))
 //@   loop 0 assigns u.users, u.userNamespaces
 //@   loop 1 invariant (newPasswords == nil || (loopfresh(newPasswords) && !sameArray(newPasswords, passwords))) && allocated(passwords)
 //@   loop 1 assigns \local
+//@   loop 1 invariant case older: forall(name string, has(u.users, name) ==> !loopfresh(u.users[name]))
 //@   loop 1 invariant case complete: forall(j, 0, rangeindex + 1, passwords[j] != password ==> mem(newPasswords, passwords[j]))
 //@   loop 1 invariant case sound:    forall(x string, mem(newPasswords, x) ==> x != password && mem(passwords, x))
 //@   ensures case keys: forall(key string, (has(u.userNamespaces, key) <==> old(has(u.userNamespaces, key)) && old(u.userNamespaces[key]) != namespace) && (has(u.userNamespaces, key) ==> u.userNamespaces[key] == old(u.userNamespaces[key])))
